@@ -1076,44 +1076,85 @@ func repsStream(r *Run) {
 		}
 		g := NewRNG(r.Seed, fmt.Sprintf("reps-case-%d", i))
 		t := genRepCase(g)
-		src := t.source()
 		gen := t.logicalEnv()
-		clGen := renderCaseLine(engineCfg{}, "", 0, src, gen)
-		resGen := renderImpl(engineCfg{}, "", 0, src, RealiseEnv(gen))
-		r.Emit(clGen, resGen)
-		r.Count("res=" + resKind(resGen))
 		for _, s := range t.stmts {
 			r.Count("stmt=" + s.id)
 		}
-		for k := 0; k < 5; k++ {
-			env := t.deriveEnv(g)
+		envs := make([]map[string]*V, 5)
+		for k := range envs {
+			envs[k] = t.deriveEnv(g)
 			feats := map[string]bool{}
-			for _, v := range env {
+			for _, v := range envs[k] {
 				featuresOf(v, feats)
 			}
 			for f := range feats {
 				r.Count("feature=" + f)
 			}
-			cl := renderCaseLine(engineCfg{}, "", 0, src, env)
-			res := renderImpl(engineCfg{}, "", 0, src, RealiseEnv(env))
-			if repCanon(res) != repCanon(resGen) {
-				if t.isolate(r, gen, env, seen) == 0 && !seen["whole"] {
-					seen["whole"] = true
-					r.Violate("C18", "rep:"+featList(feats), cl, fmt.Sprintf("%q: %s ; generic environment: %s (no single statement differs)", src, resultSummary(res), resultSummary(resGen)))
+		}
+		// The statements are independent, so the template is emitted in two parts: the statements
+		// without filters and comparisons, and the others (the parts of the model that a case
+		// needs decide whether the model can answer it).
+		for part := 0; part < 2; part++ {
+			var stmts []repStmt
+			for _, st := range t.stmts {
+				if st.plain() == (part == 0) {
+					stmts = append(stmts, st)
 				}
 			}
-			if !modelFollowsArrayNilPatch {
-				pending := false
-				for _, v := range env {
-					pending = pending || hasNilInFixedArray(v)
-				}
-				if pending {
-					r.Count("oracle-only(model pending array-nil-element)")
-					continue
+			if len(stmts) == 0 {
+				continue
+			}
+			pt := &repGen{vars: t.vars, stmts: stmts}
+			src := pt.source()
+			used := map[string]bool{}
+			for _, st := range stmts {
+				for _, v := range st.vars {
+					used[v] = true
 				}
 			}
-			r.Nontrivial(cl)
-			r.Emit(cl, res)
+			var names []string
+			for _, v := range t.vars {
+				if used[v.name] {
+					names = append(names, v.name)
+				}
+			}
+			genP := restrictEnv(gen, names)
+			clGen := renderCaseLine(engineCfg{}, "", 0, src, genP)
+			resGen := renderImpl(engineCfg{}, "", 0, src, RealiseEnv(genP))
+			r.Emit(clGen, resGen)
+			r.Count(fmt.Sprintf("part%d-res=%s", part, resKind(resGen)))
+			for k := 0; k < 5; k++ {
+				env := restrictEnv(envs[k], names)
+				cl := renderCaseLine(engineCfg{}, "", 0, src, env)
+				res := renderImpl(engineCfg{}, "", 0, src, RealiseEnv(env))
+				if repCanon(res) != repCanon(resGen) {
+					if pt.isolate(r, genP, env, seen) == 0 && !seen["whole"] {
+						seen["whole"] = true
+						feats := map[string]bool{}
+						for _, v := range env {
+							featuresOf(v, feats)
+						}
+						r.Violate("C18", "rep:"+featList(feats), cl, fmt.Sprintf("%q: %s ; generic environment: %s (no single statement differs)", src, resultSummary(res), resultSummary(resGen)))
+					}
+				}
+				if !modelFollowsArrayNilPatch {
+					pending := false
+					for _, v := range env {
+						pending = pending || hasNilInFixedArray(v)
+					}
+					if pending {
+						r.Count("oracle-only(model pending array-nil-element)")
+						continue
+					}
+				}
+				r.Nontrivial(cl)
+				r.Emit(cl, res)
+			}
 		}
 	}
+}
+
+// plain: the statement uses neither a filter nor a comparison.
+func (s repStmt) plain() bool {
+	return !s.cmp && !strings.Contains(s.src, "|") && !strings.Contains(s.src, "tablerow") && !strings.Contains(s.src, " contains ")
 }
